@@ -319,7 +319,10 @@ def find_blocked_reactions(
             solution.fluxes.abs() < zero_cutoff
         ].index.tolist()
         # Run FVA to find reactions where both the minimal and maximal flux
-        # are zero (below the cut off).
+        # are zero (below the cut off). A reaction is blocked only if it cannot
+        # carry flux in any steady state: the ranges must not be restricted by
+        # the objective (fraction 0 would still require "objective >= 0").
+        model.objective = Zero
         flux_span = flux_variability_analysis(
             model,
             fraction_of_optimum=0.0,
